@@ -34,7 +34,8 @@ CHECKS = {
         text='The two transitions that can lose a wake-up (release of the lock; a notified waiter leaving that state '
              'without locking) are followed on every MIR path by the hand-over to the oldest waiter; every waker '
              'taken out of a node reaches Waker::wake in every public wrapper; every Pending return stored the '
-             'waker of this poll.', note='Eventual completion (needs executor fairness) is not decided.', ref='5-C03'),
+             'waker of this poll; a future parks only on a path that knows the mutex is locked (or, fair, a waiter '
+             'is queued); the constructor starts unlocked with an empty queue.', note='Eventual completion (needs executor fairness) is not decided.', ref='5-C03'),
     'C04': dict(
         technique='path-sensitive guard analysis over MIR (FairGate), queue-end rule, typestate',
         text='Structure of fair hand-over: the lock bit is set only on paths entitled to it in fair mode; waiters '
@@ -49,7 +50,9 @@ CHECKS = {
     'C06': dict(
         technique='path-sensitive must-follow analysis over MIR (wake-up owed after head/permit/notification change)',
         text='Necessary conditions of "head fits => head notified", one per stranding scenario, on every MIR path of '
-             'the semaphore state functions; reported D1a and D1b on the pinned tree (both fixed).',
+             'the semaphore state functions (incl. a notified acquirer takes fitting permits; an acquirer parks only '
+             'when its request does not fit or, fair, somebody is queued); reported D1a and D1b on the pinned tree '
+             '(both fixed).',
         note='The full induction over joint states and eventual completion are not decided.', ref='5-C06'),
     'C07': dict(
         technique='path-sensitive guard analysis over MIR (FairGate on permit subtraction), queue-end rule, typestate',
@@ -96,19 +99,22 @@ CHECKS = {
         technique='path-sensitive must-follow / result-use analysis over MIR',
         text='Every path that makes a value available hands over to the oldest parked receiver; a dropped notified '
              'receiver forwards; taking a sender\'s value returns its waker; close wakes all; every returned waker '
-             'reaches Waker::wake in each wrapper; Pending stores the current waker.',
+             'reaches Waker::wake in each wrapper; Pending stores the current waker; a receiver parks only with an '
+             'empty buffer and no parked sender, a sender only when the buffer cannot take its value.',
         note='Deadlock freedom under every schedule is not decided.', ref='5-C10'),
     'C12': dict(
         technique='path-sensitive guard / effect analysis over MIR, who-may-write scan',
         text='The slot is written only in send under is_fulfilled == false (which also sets the flag, drains and '
              'wakes), the reject path returns the caller\'s value; single-consumer delivery moves the value out with '
-             'take(), broadcast delivery clones and never takes; None only when fulfilled and empty; Notified never '
-             'produced in these modules.', note='Which receiver wins is not decided.', ref='5-C12'),
+             'take(), broadcast delivery clones and never takes; None only when fulfilled and empty; a receiver parks '
+             'only while nothing is decided; the constructor starts empty and unfulfilled; Notified never produced '
+             'in these modules.', note='Which receiver wins is not decided.', ref='5-C12'),
     'C13': dict(
         technique='path-sensitive guard / orientation analysis over MIR (operand origins of comparisons)',
         text='state_id changes only by += 1 on the publishing path (value stored, waiters woken, open, id != MAX); '
              'both delivery sites are guarded by lt(requested, current) in that orientation and return (current id, '
-             'clone of stored value); None only when closed and nothing newer.',
+             'clone of stored value); None only when closed and nothing newer; a receiver parks only while nothing '
+             'newer exists and the channel is open; the constructor starts at id 0, open, without value.',
         note='Convergence over interleavings is not decided.', ref='5-C13'),
     'C14': dict(
         technique='path-sensitive effect analysis over MIR (effect-freedom of reset, latch rule)',
